@@ -184,6 +184,32 @@ func cmdRun(args []string) int {
 			if hs[i].Threads {
 				continue // schedules are replayed by the thread harness's own native stress mode (see DESIGN)
 			}
+			if r.NoNative {
+				// environment outcomes of this harness are uninterpreted (no native realisation): a counterexample is
+				// confirmed by re-executing the harness in the engine with the model's concrete values
+				nv := 0
+				for _, v := range r.Violations {
+					if v.Known != "" || nv >= 3 {
+						continue
+					}
+					nv++
+					p, err := eng.WriteReplay(replayDir, &eng.ReplayFile{Harness: r.Name, Property: prop, Tier: *tier, Values: v.Values, Pretty: v.Pretty,
+						Failed: map[string]string{"kind": v.Kind, "label": v.Label, "pos": v.Pos}, Expect: "fail:" + v.Label})
+					if err == nil {
+						v.Replay = p
+					}
+					c2 := cfg
+					c2.Fixed = v.Values
+					r2 := eng.RunHarness(l, hs[i], c2)
+					for _, v2 := range r2.Violations {
+						if v2.Label == v.Label {
+							v.Reproduced = true
+						}
+					}
+					v.ReplayOut = "engine re-execution with concrete values: " + r2.Status
+				}
+				continue
+			}
 			nv := 0
 			for _, v := range r.Violations {
 				if v.Known != "" || nv >= 3 {
